@@ -31,3 +31,4 @@ def rules(ctx):
     S.after_bound_rules(ctx)
     S.extract_state_rules(ctx)
     S.survey2_rules(ctx)
+    S.round5_rules(ctx)
